@@ -11,11 +11,12 @@ pub mod s3 {
       relation r0(i64);
       relation r1(i64);
       relation r2(i64, i64);
-      r2(v0, v2) <-- r2(v0, v1), r2(v1, v2), r2(v2, v3);
-      r2(v0, v1) <-- r2(v0, v1) if ((*v0) < 3), r2(v1, v2) if ((*v2) != (*v1));
-      r2(v0, v0) <-- r2(v0, v1), r0(v1);
-      r2(v0, v0) <-- r0(3), r0(v0);
-      r2(v2, v0) <-- if let Some(v0) = None::<i64>, r1(v1), r1(v2) if (v0 <= 2) let v3 = ((*v1) + 0), r2(3, v1);
+      r2(v0, v1) <-- r2(v0, v1), r2(v0, v0), r2(v1, v2);
+      r2(v0, v1) <-- for v9 in 0..4, r2(v0, v1), r2(v9, v1);
+      r2(3, 2);
+      r2(v1, v0) <-- if let Some(v0) = Some(2), r0(v0), r0(v1) if (v0 <= 4);
+      r2(v1, v1) <-- r2(v0, v1), r1(v0), if ((*v0) <= 5);
+      r0(v1) <-- if let Some(v0) = Some(4), r2(v0, v1), r1(3), for v2 in 1..1;
    }
    pub struct Inst { p: Prog, pool: Option<ascent::rayon::ThreadPool> }
    pub fn make(pool: Option<usize>) -> Box<dyn Driver> {
@@ -55,11 +56,11 @@ pub mod s7 {
       relation r3(i64, i64, i64);
       r2((v0 + 1), 1, (v0 + 1)) <-- if let Some(v0) = Some(1), r1(2, v0), if (v0 < 6), if (v0 < 6);
       r2(v0, v2, ((*v0) + 1)) <-- r2(0, 1, v0), r2(3, ((*v0) + 1), ((*v0) + 1)) if ((*v0) <= 5) let v1 = ((*v0) + 0), let v2 = (*v0), if ((*v0) < 6);
-      r3(v0, v1, v2) <-- r0(v0, v1) if ((*v0) < 5), r1(v1, v2) if ((*v2) != (*v1));
-      r3(v1, v0, v2) <-- r3(v0, v1, v2) if ((*v1) < 6), if ((*v1) == 3);
-      r3(v3, v0, v3) <-- r1(2, 2), if let Some(v0) = Some(4), r2(v0, v1, v2), r2(v2, 1, v3) if (v0 <= 4);
-      r1(((*v1) + 1), ((*v0) + 1)) <-- r0(v0, 0) if ((*v0) < 4), r3(v0, v1, v2) if ((*v2) <= 2) let v3 = ((*v1) + 1), if ((*v1) < 6), if ((*v0) < 6);
-      r3(3, v0, v0) <-- r0(v0, v1) if ((*v0) != 4) let v2 = ((*v0) + 1), r0(v2, v3);
+      r3(v0, v1, v9) <-- let v9 = 0, r0(v0, v1), r1(v1, v9);
+      r3(((*v0) + 1), v3, 1) <-- r3(v0, v1, v2) if ((*v2) <= 3), r3(v1, v3, v1), r3(v1, v4, 3), for v5 in [2, 4, 4], if ((*v0) < 6);
+      r2(v1, v0, v2) <-- r2(v0, v1, v2);
+      r3(1, 1, 1);
+      r1(v0, v0) <-- r0(0, v0), r1(v0, v0) if ((*v0) < 6);
    }
    pub struct Inst { p: Prog, pool: Option<ascent::rayon::ThreadPool> }
    pub fn make(pool: Option<usize>) -> Box<dyn Driver> {
@@ -98,10 +99,11 @@ pub mod s11 {
       relation r1(i64, i64);
       relation r2(i64, i64);
       relation r3(i64, i64);
-      r3(v0, v8) <-- if let Some(v9) = Some(3), r2(v0, v1), r0(v1, v9) let v8 = ((*v0) + 1);
-      r2(v1, v0) <-- r1(v0, 3), for v1 in [3];
-      r3(v1, v1) <-- if let Some(v0) = Some(2), r0((v0 + 1), v1), r1(v2, v0) if ((*v2) <= 1), r2(v2, (v0 + 1));
-      r2((v0 + 1), v0) <-- if let Some(v0) = None::<i64>, r0((v0 + 1), v0), if (v0 < 6);
+      r2(v0, v2) <-- r2(v0, v1), r0(v1, v2), r3(v2, v3);
+      r3(0, 3);
+      r2(v0, v1) <-- r3(v0, v1), r2(v2, v1), r0(v1, v3), for v4 in 2..3;
+      r2(v0, 3) <-- if let Some(v0) = None::<i64>;
+      r2(2, v1) <-- r2(v0, v1), if ((*v1) < 4);
    }
    pub struct Inst { p: Prog, pool: Option<ascent::rayon::ThreadPool> }
    pub fn make(pool: Option<usize>) -> Box<dyn Driver> {
@@ -140,7 +142,7 @@ pub mod s15 {
       relation r1(i64, i64);
       relation r2(i64, i64, i64);
       relation r3(i64);
-      r2(v0, v1, v9) <-- let v9 = 2, r1(v0, v1), r1(v1, v9);
+      r2(v0, v1, v0) <-- r1(v0, v1), r1(v1, v1);
       r3((v0 + 1)) <-- for v0 in 1..4, if (v0 < 6);
       r2(v0, v0, (v0 + 1)) <-- for v0 in 2..3, r2(v0, v0, (v0 + 1)), if (v0 < 6);
    }
